@@ -23,9 +23,10 @@ META = dict(
         'n_geos_max, treatment/control size ranges, share range or budget '
         'range symbolic (one or two at a time); histories: data object '
         'used before by / shared with a second search object',
-        thorough='as quick, plus all 7^3 matrices x {n_geos_max, share, '
-        'budget} symbolic on P1 and 7^4 matrices on P2 (both searches), 5-geo '
-        'panel P10 with seeded matrices'),
+        thorough='as quick, plus all 7^3 matrices x {n_geos_max, share} '
+        'symbolic on P1 (both searches), panels P8 P3, every symbolic group '
+        'on every curated / seeded 4-geo table, 5-geo panel P10 with seeded '
+        'tables, all-matrix shared-data histories'),
     outside='panels are a listed family of concrete panels (cells are not '
     'symbolic); N<=5; at most two parameter groups symbolic at once',
     stubs=['pandas.core.nanops._ensure_numeric pass-through for symbolic '
@@ -69,7 +70,7 @@ def jobs(tier, seed):
   out += _split_sym_jobs('P1', methods, [], tier, 'all343')
   rnd = random.Random(seed)
   mats = list(CURATED4) + [dict(zip('0123', (rnd.choice(RT) for _ in '0123')))
-                           for _ in range(6 if tier == 'quick' else 30)]
+                           for _ in range(6 if tier == 'quick' else 14)]
   syms = [['ngm'], ['tsize', 'csize'], ['share'], ['budget'], ['ngm',
                                                                'share']]
   for panel in (['P2', 'P7'] if tier == 'quick' else ['P2', 'P7', 'P8', 'P3']):
@@ -107,12 +108,11 @@ def jobs(tier, seed):
               name=name, panel='P1', method=m, sym=['ngm'], elig='sym',
               elig_fix={'0': r0}, history=h, max_s=2500)))
   if tier == 'thorough':
-    for sym in (['ngm'], ['share'], ['budget']):
+    for sym in (['ngm'], ['share']):
       out += _split_sym_jobs('P1', methods, sym, tier, 'all343',
                              max_s=2500)
-    out += _split_sym_jobs('P2', methods, [], tier, 'all2401', max_s=2800)
     mats5 = [dict(zip('01234', (rnd.choice(RT) for _ in '01234')))
-             for _ in range(24)]
+             for _ in range(10)]
     for i, el in enumerate(mats5):
       for m in methods:
         name = 'p10-%s-%d' % (m, i)
